@@ -181,7 +181,7 @@ def construct(ex, cls: type, args, kwargs, s: St):
         exc = alloc(s, "exc", EXC)
         s.assume(smt.is_exc(exc.t), smt.inst_pred(cls.__name__)(exc.t))
         v = Val(exc.t, OBJ(cls.__name__) if ex.model.has_class(cls.__name__) else EXC)
-        ex.exc_info[exc.t.get_id()] = {"cls": cls.__name__, "args": args, "kwargs": kwargs}
+        ex.exc_info[exc.t.get_id()] = {"cls": cls.__name__, "args": args, "kwargs": kwargs, "_ref": exc.t}
         # declared attribute wiring of exception constructors (e.g. ExecutionError.partial_state)
         for attr, src in ex.model.ctor_fields(cls.__name__, args, kwargs).items():
             s.assume(smt.attr_func(attr)(exc.t) == to_v(src, s))
@@ -582,10 +582,10 @@ def dict_method(ex, d: Val, name, args, kwargs, s: St):
         yield s, Val(d.t, ("dict", kty, vty))
     elif name == "values":
         kv = seq_view(d, s)
-        yield s, SeqView(kv.len, lambda i: ex.typed_read(h.c["dv"][d.t][to_v(kv.at(i), s)], vty, s), vty, kv.facts)
+        yield s, SeqView(kv.len, lambda i: ex.typed_read(h.c["dv"][d.t][to_v(kv.at(i), s)], vty, s), vty, kv.facts, keys=kv)
     elif name == "items":
         kv = seq_view(d, s)
-        yield s, SeqView(kv.len, lambda i: TupVal([kv.at(i), ex.typed_read(h.c["dv"][d.t][to_v(kv.at(i), s)], vty, s)]), ANY, kv.facts)
+        yield s, SeqView(kv.len, lambda i: TupVal([kv.at(i), ex.typed_read(h.c["dv"][d.t][to_v(kv.at(i), s)], vty, s)]), ANY, kv.facts, keys=kv)
     elif name == "setdefault":
         k = to_v(args[0], s)
         has = h.c["dh"][d.t][k]
